@@ -229,6 +229,8 @@ class CodeBuilder:
 
         if is_local_type_name(field_type):
             field_type = clean_id(field_type)
+            if resolved_type_params:
+                typ = substitute_type_params(typ, resolved_type_params)
             self.ensure_object_imported(typ, field_type)
 
         return field_type
